@@ -132,7 +132,7 @@ func genSpec(r *rand.Rand, ver version.Version, big bool) *sxSpec {
 	}
 	sp.payload = randBytes(r, pl)
 	sp.date = []int64{0, 1, 1 << 31, 1 << 32, 1 << 40, 1517418800, 1700000000}[r.Intn(7)]
-	sp.expires = sp.date + []int64{1, 2, 3600, 604799, 604800}[r.Intn(5)]
+	sp.expires = sp.date + []int64{0, 1, 2, 3600, 604799, 604800}[r.Intn(6)] // 0: valid at exactly one second
 	if r.Intn(2) == 0 { // time.Time values with sub-second parts, in both orders
 		sp.dateNs, sp.expNs = int64(r.Intn(1000000000)), int64(r.Intn(1000000000))
 	}
